@@ -45,6 +45,85 @@ def build_world(repo_root="/repo") -> World:
     ):
         w.classes.add(c)
     pybuiltins.install(w)
+    from pyvc.sorts import B as _B, I as _I, S as _S, V as _V
+
+    w.ghost_sorts.update({"$cl_n": _I, "$cl_tag": z3.ArraySort(_I, _S), "$cl_a1": z3.ArraySort(_I, _V), "$cl_a2": z3.ArraySort(_I, _V), "$cl_res": z3.ArraySort(_I, _V)})
+
+    def _sfd(name):
+        def deco(f):
+            w.specfuns[name] = SpecFun(name, f)
+            return f
+
+        return deco
+
+    w.ghost_sorts.update({"$ex_n": _I, "$ex_cmd": z3.ArraySort(_I, _V), "$ex_par": z3.ArraySort(_I, _V)})
+
+    @_sfd("execs")
+    def _execs(ex, st, args):
+        return Val(mki(ex.gh(st, "$ex_n")), int)
+
+    @_sfd("exec_cmd")
+    def _exec_cmd(ex, st, args):
+        return Val(ex.gh(st, "$ex_cmd")[ex.as_int(st, args[0])], None)
+
+    @_sfd("exec_params")
+    def _exec_params(ex, st, args):
+        return Val(ex.gh(st, "$ex_par")[ex.as_int(st, args[0])], None)
+
+    @_sfd("tx_before")
+    def _tx_before(ex, st, args):
+        """in the pipeline segment [lo, hi): some application of `a` precedes every application of `b` (and a occurs)"""
+        lo, hi = ex.as_int(st, args[0]), ex.as_int(st, args[1])
+        names = ex.gh(st, "$tx_name")
+        a_, b_ = V.sval(args[2].t), V.sval(args[3].t)
+        # the pipeline built by straight-line code is a literal Store chain over lo+k: decide it by reading it off
+        seq = {}
+        t = names
+        ok = True
+        while z3.is_app(t) and t.decl().kind() == z3.Z3_OP_STORE:
+            k = z3.simplify(t.arg(1) - lo)
+            v = z3.simplify(t.arg(2))
+            if not (z3.is_int_value(k) and z3.is_string_value(v)):
+                ok = False
+                break
+            seq.setdefault(k.as_long(), v.as_string())
+            t = t.arg(0)
+        n_ = z3.simplify(hi - lo)
+        sa, sb = z3.simplify(a_), z3.simplify(b_)
+        if ok and z3.is_int_value(n_) and z3.is_string_value(sa) and z3.is_string_value(sb) and all(k in seq for k in range(n_.as_long())):
+            order = [seq[k] for k in range(n_.as_long())]
+            ia = [k for k, x in enumerate(order) if x == sa.as_string()]
+            ib = [k for k, x in enumerate(order) if x == sb.as_string()]
+            return Val(mkb(bool(ia) and all(ia[0] < k for k in ib)), bool)
+        i, j = z3.Ints("txb_i txb_j")
+        return Val(mkb(z3.Exists([i], z3.And(i >= lo, i < hi, names[i] == a_, z3.ForAll([j], z3.Implies(z3.And(j >= lo, j < hi, names[j] == b_), i < j))))), bool)
+
+    @_sfd("tx_applied")
+    def _tx_applied(ex, st, args):
+        """some application of transform `name` in [lo, hi) got `arg` as its first extra argument"""
+        lo, hi = ex.as_int(st, args[0]), ex.as_int(st, args[1])
+        i = z3.Int("txa_i")
+        return Val(mkb(z3.Exists([i], z3.And(i >= lo, i < hi, ex.gh(st, "$tx_name")[i] == V.sval(args[2].t), ex.gh(st, "$tx_a1")[i] == args[3].t))), bool)
+
+    @_sfd("calls")
+    def _calls(ex, st, args):
+        return Val(mki(ex.gh(st, "$cl_n")), int)
+
+    @_sfd("call_tag")
+    def _call_tag(ex, st, args):
+        return Val(mks(ex.gh(st, "$cl_tag")[ex.as_int(st, args[0])]), str)
+
+    @_sfd("call_arg1")
+    def _call_arg1(ex, st, args):
+        return Val(ex.gh(st, "$cl_a1")[ex.as_int(st, args[0])], None)
+
+    @_sfd("call_arg2")
+    def _call_arg2(ex, st, args):
+        return Val(ex.gh(st, "$cl_a2")[ex.as_int(st, args[0])], None)
+
+    @_sfd("call_res")
+    def _call_res(ex, st, args):
+        return Val(ex.gh(st, "$cl_res")[ex.as_int(st, args[0])], None)
     from pyvc.sorts import LOWER, UPPER
 
     _s = z3.String("ax_s")
@@ -58,6 +137,7 @@ def build_world(repo_root="/repo") -> World:
 
     externs_misc.install(w)
     externs_misc.install_more(w)
+    externs_misc.install_sfc(w)
     externs_arrow.install(w)
     externs_duck.install(w)
     externs_sqlglot.install(w)
@@ -65,6 +145,8 @@ def build_world(repo_root="/repo") -> World:
 
     for m in (c_cursor, c_cli, c_types, c_server, c_checks, c_conn, c_variables, c_info_schema, c_cursor_exec):
         m.install(w)
+    c_cursor_exec.install_execute(w)
+    c_cursor_exec.install_execute2(w)
     return w
 
 
